@@ -356,6 +356,8 @@ func cmdCheck(argv []string) int {
 			allRepl = append(allRepl, scopedRepl{r[0], f, r[2]})
 		}
 	}
+	// the longest matching scope wins (a directive for C14f overrides one for C14)
+	sort.SliceStable(allRepl, func(i, j int) bool { return len(allRepl[i].scope) < len(allRepl[j].scope) })
 	replaceFor := func(harness string) map[string]*ssa.Function {
 		m := map[string]*ssa.Function{}
 		for _, r := range allRepl {
